@@ -250,7 +250,11 @@ def run(ck):
     tset = [(f2, a) for f2 in prog.funcs.values() if f2.cls == H + "Private::ParserImpl<Pistache::Http::Request>" for a in list(f2.events("assign")) + list(f2.events("init")) + [c for c in f2.events("call") if c.get("op") == "="]
             if ((a.get("lhs") or {}).get("f") or a.get("f") or (a.get("recv") or {}).get("f") or "").endswith("::time_")]
     where = {("ctor" if f2.d.get("ctor") else f2.base.rsplit("::", 1)[1]) for f2, _ in tset}
-    ck.ob("C14-R4", "reference-instant", bool(tdecl) and {"ctor", "reset"} <= where, cip.loc, cip, "elapsed is measured from parser->time(); time_ is set in %s" % sorted(where))
+    extra_w = sorted(where - {"ctor", "reset"})
+    ck.ob("C14-R4", "reference-instant", bool(tdecl) and {"ctor", "reset"} <= where and not extra_w, cip.loc, cip,
+          "elapsed is measured from parser->time(); time_ is set in %s" % sorted(where) if not extra_w else
+          "the instant the time-outs are counted from is also moved by %s: both are counted from the start of the request (set when the "
+          "parser is created and when it is reset for the next request), so a request that keeps the connection busy would never time out" % extra_w)
 
     # ---------------- R5 ----------------
     orf = lib.single(prog, TI + "onReady")
